@@ -194,6 +194,9 @@ func varsJSON(vals map[string]*gen.Val) []byte {
 func genInput(r *rand.Rand, nOps int, directiveVar bool) (*input, error) {
 	in := &input{}
 	in.prof = fed.RandomProfile(r)
+	// the same entity field under the interface and under its concrete types: the shape fetch
+	// de-duplication (with type-name scopes) lives on
+	in.prof.IfaceRel = in.prof.Interface
 	in.l = fed.GenLayout(r, in.prof)
 	sg, err := gqlparser.LoadSchema(&gast.Source{Name: "super", Input: in.l.SuperSDL})
 	if err != nil {
@@ -211,6 +214,7 @@ func genInput(r *rand.Rand, nOps int, directiveVar bool) (*input, error) {
 			op := gen.DefaultOpProfile(r)
 			op.MaxDepth = 2 + r.IntN(3)
 			op.NoSingletonVars = true
+			op.Echo = attempt%2 == 1 || in.prof.IfaceRel
 			if in.l.Super.Mutation != "" && r.IntN(8) == 0 {
 				op.Kind = "mutation"
 			}
